@@ -32,6 +32,8 @@ Apply(e) ==
       [] e.ev = "tick"     -> ps' = Tick(ps, e.d)
       [] e.ev = "quiet"    -> ps' = Quiet(ps)
       [] e.ev = "teardown" -> ps' = Teardown(ps)
+      [] e.ev = "rcburst"  -> ps' = Teardown(ps)     \* free-running burst: only the final observation is judged
+      [] e.ev = "rcfinal"  -> ps' = RcFinal(ps, SeqToSet(e.held), SeqToSet(e.keys))
       [] e.ev \in {"leak", "note", "end", "spin", "bo"} -> UNCHANGED ps
       [] OTHER             -> ps' = [ps EXCEPT !.bad = @ \cup {"Unexplained"}]
 
